@@ -9,7 +9,7 @@ Open Scope R_scope.
 
 Theorem C18_gen_grain_structure_is_model :
   @constrained1_gen = @constrained1 /\ @growth1_gen = @growth1 /\ @Rcr_gen = @Rcr /\ @normalize_gen = @normalize /\
-  @Rm3_gen = @Rm3 /\ @zener1_gen = @zener1 /\ @span_gen = @span.
+  @Rm3_gen = @Rm3 /\ @zener1_gen = @zener1 /\ @span_gen = @span /\ @gload_gen = @gload /\ @greset_gen = @greset.
 Proof. exact gen_grain. Qed.
 Print Assumptions C18_gen_grain_structure_is_model.
 
@@ -45,3 +45,9 @@ Proof.
               (grain_clock_equals_host propose solve_minDtFrac_gen solve_maxDtFrac_gen t0 (concat calls) gen_solve_fractions)).
 Qed.
 Print Assumptions C18_gen_clock.
+
+Theorem C18_gen_load_reset_volume size raw psd' : momentFromN Rops size raw 3 <> 0 ->
+  momentFromN Rops size (g_psd (gload_gen Rops size raw)) 3 = 1 /\
+  momentFromN Rops size (g_psd (greset_gen Rops {| g_psd := psd'; g_backup := g_backup (gload_gen Rops size raw) |})) 3 = 1.
+Proof. exact (load_reset_volume size raw psd'). Qed.
+Print Assumptions C18_gen_load_reset_volume.
